@@ -57,13 +57,13 @@ def slice_journeys(trace, out, keep):
     return n
 
 
-def model(c, workers=4):
+def model(c, workers=None):
     """Exhaustive honest model over the topology families the driver defines (T1-T3)."""
     drv = c.build("dp")
     topos = c.scratch + "/topos.ndjson"
     c.run_driver(drv, ["-mode", "topo", "-topos", "T1,T2,T3", "-out", topos])
     r = c.mc("Dataplane", "DataplaneMC.%s.cfg" % c.tier, extra_files=[(topos, "topos.ndjson")],
-             workers=workers, timeout=1500)
+             workers=workers or (8 if c.thorough else 4), timeout=3000)
     if r.distinct < 1000:
         raise vlib.Infra("Dataplane model explored only %d states: vacuous" % r.distinct)
     return r
